@@ -259,10 +259,19 @@ type SexpArray struct {
 	Infix               bool
 
 	Env *Zlisp
+
+	// typing: Type() is running for this array (an array can contain
+	// itself, directly or through other arrays, as its first element).
+	typing bool
 }
 
 func (r *SexpArray) Type() *RegisteredType {
 	if r.Typ == nil {
+		if r.typing {
+			return nil // self-referential: no element type to take
+		}
+		r.typing = true
+		defer func() { r.typing = false }()
 		if len(r.Val) > 0 {
 			// take type from first element
 			ty := r.Val[0].Type()
